@@ -51,6 +51,9 @@ import XotModel.Model.ParseString
 import XotModel.Props.C02
 import XotModel.Props.C04
 import XotModel.Lemmas.ReachE2E
+import XotModel.Lemmas.FparseHistReach
+import XotModel.Lemmas.FparseValsReach
+import XotModel.Lemmas.RepairRoundTrip
 
 namespace XotModel.Props
 open XotModel XotModel.Gen
@@ -836,5 +839,313 @@ example : ∃ p, parseString .document reachDocEnv c01ReachText = .ok p ∧ p.tr
   exact ⟨p, h2, h3, h4, h5⟩
 
 end EndToEnd
+
+/-! ## END TO END, with the parser in the history: parse ∘ API edits ∘ serialise ∘ parse
+
+The commonest use of the crate: parse a text, edit the tree through the API, serialise.  `PCall`
+(Model/FparseHist.lean) is the history type that has BOTH kinds of step — `parse mode text` (reference tokenizer
++ builder on the interning tables of the store, the accepted tree installed as a new parentless tree,
+`IdStore.parseInto`) and every extended API call.  Props/C04.lean proves the forest invariant for every such
+history (`C04_reach_full`: the tree an accepted text installs IS valid, `C04_parsed_valid`) and reduces
+`Representable` of every reachable tree to conditions on its values (`C01_reachable_representable_full`).
+Composed with the round trip:
+
+    parse(text), API calls  —erase→  tree  —to_string→  text'  —parse→  the same tree.
+
+What remains as hypotheses are the VALUE-level conditions on the tree that is serialised (`envOK`, `valueOK`
+at every node, distinct `xml:id` values, `singleRoot`, `namesWritable`).  For the UNEDITED document they are
+consequences of acceptance outside the two recorded guards (`C01_parse_serialise`).  For EDITED trees:
+`singleRoot`, distinct `xml:id`s and `namesWritable` can be destroyed by edits (append a second element to
+the document node; copy an attribute `xml:id`; remove a declaration — `create_missing_prefixes` restores the
+last one, `C10_reachable_repair_roundtrip`), so they are conditions on the result by nature.  `envOK` and
+`valueOK` at every node are THEOREMS when "the values handed to the API are in the XML domain"
+(`Forest.XCall.argValuesOK`, Model/FparseHist.lean, for the tables at the time of each call:
+`Store.argValuesOKAlong`) — `C01_edited_values`: every value of the edited store is a value of the parsed tree,
+a value handed to a call, a concatenation of text values (consolidation) or a declaration generated by
+`create_missing_prefixes` (a namespace of a registered name under a generated NCName; needs `nameTableOK`:
+every such namespace is declarable); value provenance for EVERY call of the forest model, Lemmas/FparseVals*.lean.
+`C01_parse_edit_serialise_values` is the composition: acceptance outside the guards + arguments in the domain +
+`singleRoot`, distinct `xml:id`s, `namesWritable` of the edited document ⇒ it round-trips. -/
+
+section ParseEditSerialise
+open XotModel.Repair
+
+/-- ⟦C01_reachable_roundtrip_full⟧ **Every document a history of parses and API calls can build
+    round-trips.**  For every history `cs` from `Xot::new()` — `parse` / `parse_fragment` of arbitrary texts
+    and well-kinded extended API calls in any order (`C04_reach_full`) —, text consolidation never switched
+    off, and every parentless tree `r` of the resulting forest whose root is a document node (a parsed
+    document, edited or not; a document built by hand): if the tables are well formed (`envOK`), every
+    node's own VALUE is in the XML domain (`valueOK`), the `xml:id` values are pairwise different, there is
+    exactly one top-level element and no top-level text (`singleRoot`), and every namespaced name has a
+    usable prefix in scope (`namesWritable`), then `to_string` succeeds, and `parse` of the text succeeds
+    and returns EXACTLY that tree, the interning tables unchanged, `deep_equal`.  No structural
+    hypothesis on the tree. -/
+theorem C01_reachable_roundtrip_full (env : Env) (cs : List PCall) (hw : ∀ c ∈ cs, c.wellKinded)
+    (hoff : ((PStore.init env).run cs).forest.everOff = false)
+    (r : HTree) (hr : r ∈ ((PStore.init env).run cs).forest.roots)
+    (hdoc : r.value.isDocument = true) (env' : Env) (henv : envOK env' = true)
+    (hval : r.erase.allNodes (fun v _ => valueOK env' v) = true)
+    (hid : (xmlIdValues env' r.erase).Nodup) (hone : singleRoot r.erase = true)
+    (hwr : namesWritable env' r.erase [] = some true) :
+    ∃ s p, toXmlString env' r.erase [] = .ok s ∧ parseString .document env' s = .ok p ∧
+      p.tree = r.erase ∧ p.env = env' ∧ deepEqual p.tree r.erase = true := by
+  have hrep : Representable env' r.erase = true := by
+    rw [(C01_reachable_representable_full env cs hw hoff r hr env').2]
+    simp [henv, hdoc, hval, hid, hone]
+  exact C01_roundtrip_writable env' r.erase hrep hwr
+
+/-- The same for `parse_fragment`: any number of top-level elements, top-level text allowed. -/
+theorem C01_reachable_roundtrip_full_fragment (env : Env) (cs : List PCall) (hw : ∀ c ∈ cs, c.wellKinded)
+    (hoff : ((PStore.init env).run cs).forest.everOff = false)
+    (r : HTree) (hr : r ∈ ((PStore.init env).run cs).forest.roots)
+    (hdoc : r.value.isDocument = true) (env' : Env) (henv : envOK env' = true)
+    (hval : r.erase.allNodes (fun v _ => valueOK env' v) = true)
+    (hid : (xmlIdValues env' r.erase).Nodup)
+    (hwr : namesWritable env' r.erase [] = some true) :
+    ∃ s p, toXmlString env' r.erase [] = .ok s ∧ parseString .fragment env' s = .ok p ∧
+      p.tree = r.erase ∧ p.env = env' ∧ deepEqual p.tree r.erase = true := by
+  have hrep : RepresentableFragment env' r.erase = true := by
+    rw [(C01_reachable_representable_full env cs hw hoff r hr env').1]
+    simp [henv, hdoc, hval, hid]
+  obtain ⟨s, hs⟩ := (C01_serialises env' r.erase hrep).mpr hwr
+  obtain ⟨p, h1, h2, h3, h4⟩ := C01_roundtrip_fragment_identical env' r.erase hrep s hs
+  exact ⟨s, p, hs, h1, h2, h3, h4⟩
+
+/-- ⟦C01_reachable_roundtrip_full_store⟧ The instance the property talks about: the tables are the ones the
+    history itself leaves in the store (parses intern names, prefixes and namespaces;
+    `create_missing_prefixes` steps may add prefixes). -/
+theorem C01_reachable_roundtrip_full_store (env : Env) (cs : List PCall) (hw : ∀ c ∈ cs, c.wellKinded)
+    (S : PStore) (hS : S = (PStore.init env).run cs) (hoff : S.forest.everOff = false)
+    (r : HTree) (hr : r ∈ S.forest.roots) (hdoc : r.value.isDocument = true) (henv : envOK S.env = true)
+    (hval : r.erase.allNodes (fun v _ => valueOK S.env v) = true)
+    (hid : (xmlIdValues S.env r.erase).Nodup) (hone : singleRoot r.erase = true)
+    (hwr : namesWritable S.env r.erase [] = some true) :
+    ∃ s p, toXmlString S.env r.erase [] = .ok s ∧ parseString .document S.env s = .ok p ∧
+      p.tree = r.erase ∧ p.env = S.env ∧ deepEqual p.tree r.erase = true := by
+  subst hS
+  exact C01_reachable_roundtrip_full env cs hw hoff r hr hdoc _ henv hval hid hone hwr
+
+/-- ⟦C01_parse_edit_serialise⟧ **Parse, edit, serialise.**  Parse an accepted text into `Xot::new()`, apply ANY
+    well-kinded history of extended API calls to the store (arbitrary arguments, whatever the calls
+    answer), serialise a document of the resulting store — in particular the parsed, now edited one —
+    with the tables the store has by then: if the value-level conditions hold of the EDITED tree, the text
+    parses back to exactly the edited tree.  (Acceptance of `text` is not even needed: a rejected text
+    installs nothing, and the theorem is then about the documents the API calls built.) -/
+theorem C01_parse_edit_serialise (env : Env) (text : Str) (cs : List Forest.XCall) (hw : ∀ c ∈ cs, c.wellKinded)
+    (S : PStore) (hS : S = (PStore.init env).run (.parse .document text :: cs.map .api))
+    (hoff : S.forest.everOff = false)
+    (r : HTree) (hr : r ∈ S.forest.roots) (hdoc : r.value.isDocument = true) (henv : envOK S.env = true)
+    (hval : r.erase.allNodes (fun v _ => valueOK S.env v) = true)
+    (hid : (xmlIdValues S.env r.erase).Nodup) (hone : singleRoot r.erase = true)
+    (hwr : namesWritable S.env r.erase [] = some true) :
+    ∃ s p, toXmlString S.env r.erase [] = .ok s ∧ parseString .document S.env s = .ok p ∧
+      p.tree = r.erase ∧ p.env = S.env ∧ deepEqual p.tree r.erase = true := by
+  refine C01_reachable_roundtrip_full_store env _ ?_ S hS hoff r hr hdoc henv hval hid hone hwr
+  intro c hc
+  rcases List.mem_cons.mp hc with rfl | hc
+  · trivial
+  · obtain ⟨x, hx, rfl⟩ := List.mem_map.mp hc
+    exact hw x hx
+
+/-- What the parse step of `C01_parse_edit_serialise` contributes: for an ACCEPTED text the store the edits start
+    from holds exactly the parsed document — handle 0, erasing to the builder's tree —, the builder's
+    tables, consolidation on. -/
+theorem C01_parse_edit_start (env : Env) (text : Str) (p : Parsed) (h : parseString .document env text = .ok p) :
+    ((PStore.init env).run [.parse .document text]).forest.roots = [HTree.ofTree 0 p.tree] ∧
+    (HTree.ofTree 0 p.tree).erase = p.tree ∧ (HTree.ofTree 0 p.tree).handle = 0 ∧
+    ((PStore.init env).run [.parse .document text]).forest.everOff = false ∧
+    ((PStore.init env).run [.parse .document text]).env = p.env ∧
+    ∀ cs : List Forest.XCall, (PStore.init env).run (.parse .document text :: cs.map .api) =
+      ((PStore.init env).run [.parse .document text]).run (cs.map .api) := by
+  obtain ⟨h1, h2, h3⟩ := PStore.fph_parse_init env h
+  exact ⟨h1, fph_erase_ofTree _ _, HTree.handle_ofTree _ _, h2, h3, fun _ => rfl⟩
+
+/-- ⟦C01_parse_serialise⟧ **The unedited document: no value-level hypothesis is left.**  A text accepted by
+    `parse` on well-formed tables, outside the two recorded guards (`NoReservedDecls`: no declaration of
+    the prefix `xml`, the known findings C03:xml-prefix-rebound-accepted / C03:not-representable-xml-prefix-
+    rebound; `PlainPiTargets`: no colon in a PI target): the store then holds one document; its
+    serialisation succeeds and parses back to exactly that tree (`C03_accepted_roundtrip`, here through the
+    store). -/
+theorem C01_parse_serialise (env : Env) (henv : envOK env = true) (text : Str) (p : Parsed)
+    (h : parseString .document env text = .ok p) (hg : NoReservedDecls p.env p.tree = true)
+    (hpi : PlainPiTargets p.env p.tree = true)
+    (S : PStore) (hS : S = (PStore.init env).run [.parse .document text]) :
+    ∃ r, S.forest.roots = [r] ∧ r.erase = p.tree ∧ S.env = p.env ∧
+      ∃ s p', toXmlString S.env r.erase [] = .ok s ∧ parseString .document S.env s = .ok p' ∧
+        p'.tree = r.erase ∧ p'.env = S.env ∧ deepEqual p'.tree r.erase = true := by
+  obtain ⟨h1, h2, h3⟩ := PStore.fph_parse_init env h
+  obtain ⟨c1, c2, c3, c4, c5⟩ := fph_accepted_value_conditions henv h hg hpi
+  subst hS
+  refine ⟨HTree.ofTree 0 p.tree, h1, fph_erase_ofTree _ _, h3, ?_⟩
+  have hd : (HTree.ofTree 0 p.tree).value.isDocument = true := by
+    rw [HTree.value_ofTree, fph_parsed_document h]; rfl
+  refine C01_reachable_roundtrip_full env [.parse .document text] (fun _ _ => ?_) h2 _ (by rw [h1]; simp) hd _
+    (by rw [h3]; exact c1) (by rw [h3, fph_erase_ofTree]; exact c2) (by rw [h3, fph_erase_ofTree]; exact c3)
+    (by rw [fph_erase_ofTree]; exact c4) (by rw [h3, fph_erase_ofTree]; exact c5)
+  rename_i c hc
+  rcases List.mem_singleton.mp hc with rfl
+  trivial
+
+/-- ⟦C01_edited_values⟧ **The values of an edited tree are in the XML domain when the values handed to the API
+    are.**  A text accepted by `parse` on well-formed tables outside the two guards, every namespace of a
+    registered name declarable (`nameTableOK` of the tables after the parse: what `create_missing_prefixes`
+    may have to declare), then ANY well-kinded history of extended API calls whose argument values are in
+    the domain of the tables at the time of the call (`Store.argValuesOKAlong`: the value of a created node,
+    the entry of a map insertion, the strings of `set_text` / `set_comment` / `set_pi_data` / `set_text_content`,
+    the names of `element_wrap` / `set_element_name`, the declarations handed to `clone_with_prefixes`):
+    the tables of the resulting store are well formed (`envOK`; only the prefix table has grown since the
+    parse) and EVERY node of EVERY tree of the store has a value in the domain of those tables — the
+    hypotheses `henv`, `hval` of `C01_parse_edit_serialise`. -/
+theorem C01_edited_values (env : Env) (henv : envOK env = true) (text : Str) (p : Parsed)
+    (h : parseString .document env text = .ok p) (hg : NoReservedDecls p.env p.tree = true)
+    (hpi : PlainPiTargets p.env p.tree = true) (htab : nameTableOK p.env = true)
+    (cs : List Forest.XCall) (hw : ∀ c ∈ cs, c.wellKinded)
+    (ha : ((PStore.init env).run [.parse .document text]).store.argValuesOKAlong cs)
+    (S : PStore) (hS : S = (PStore.init env).run (.parse .document text :: cs.map .api)) :
+    envOK S.env = true ∧ PrefixExt p.env S.env ∧
+      ∀ r ∈ S.forest.roots, r.erase.allNodes (fun v _ => valueOK S.env v) = true := by
+  subst hS
+  exact fpvd_parse_then_edit henv h hg hpi htab cs hw ha
+
+/-- Without `create_missing_prefixes` steps the tables stay the parser's: the condition on the arguments
+    is a condition for those tables, stated once. -/
+theorem C01_edited_values_static (env : Env) (henv : envOK env = true) (text : Str) (p : Parsed)
+    (h : parseString .document env text = .ok p) (hg : NoReservedDecls p.env p.tree = true)
+    (hpi : PlainPiTargets p.env p.tree = true) (htab : nameTableOK p.env = true)
+    (cs : List Forest.XCall) (hw : ∀ c ∈ cs, c.wellKinded)
+    (hne : ∀ c ∈ cs, ∀ n, c ≠ .createMissingPrefixes n) (ha : ∀ c ∈ cs, c.argValuesOK p.env)
+    (S : PStore) (hS : S = (PStore.init env).run (.parse .document text :: cs.map .api)) :
+    envOK S.env = true ∧ ∀ r ∈ S.forest.roots, r.erase.allNodes (fun v _ => valueOK S.env v) = true := by
+  have h3 : ((PStore.init env).run [.parse .document text]).store.env = p.env := (PStore.fph_parse_init env h).2.2
+  obtain ⟨h1, _, h2⟩ := C01_edited_values env henv text p h hg hpi htab cs hw
+    (Store.fpvd_argValuesOKAlong_static cs _ hne (by rw [h3]; exact ha)) S hS
+  exact ⟨h1, h2⟩
+
+/-- ⟦C01_parse_edit_serialise_values⟧ **Parse, edit with values of the XML domain, serialise.**  What is left as
+    hypothesis on the EDITED document `r` is what edits can destroy and no argument condition can
+    guarantee: one top-level element and no top-level text (`singleRoot`), pairwise different `xml:id`
+    values, a usable prefix in scope for every namespaced name (`namesWritable`; `create_missing_prefixes`
+    as last step establishes it) — and that consolidation was never switched off.  Then `to_string`
+    succeeds and `parse` returns exactly the edited tree. -/
+theorem C01_parse_edit_serialise_values (env : Env) (henv : envOK env = true) (text : Str) (p : Parsed)
+    (h : parseString .document env text = .ok p) (hg : NoReservedDecls p.env p.tree = true)
+    (hpi : PlainPiTargets p.env p.tree = true) (htab : nameTableOK p.env = true)
+    (cs : List Forest.XCall) (hw : ∀ c ∈ cs, c.wellKinded)
+    (ha : ((PStore.init env).run [.parse .document text]).store.argValuesOKAlong cs)
+    (S : PStore) (hS : S = (PStore.init env).run (.parse .document text :: cs.map .api))
+    (hoff : S.forest.everOff = false)
+    (r : HTree) (hr : r ∈ S.forest.roots) (hdoc : r.value.isDocument = true)
+    (hid : (xmlIdValues S.env r.erase).Nodup) (hone : singleRoot r.erase = true)
+    (hwr : namesWritable S.env r.erase [] = some true) :
+    ∃ s p', toXmlString S.env r.erase [] = .ok s ∧ parseString .document S.env s = .ok p' ∧
+      p'.tree = r.erase ∧ p'.env = S.env ∧ deepEqual p'.tree r.erase = true := by
+  obtain ⟨h1, _, h2⟩ := C01_edited_values env henv text p h hg hpi htab cs hw ha S hS
+  exact C01_parse_edit_serialise env text cs hw S hS hoff r hr hdoc h1 (h2 r hr) hid hone hwr
+
+/-! Non-vacuity, closed (`decide +kernel`), from the tables of `Xot::new()` (`Env.fresh`): the histories `fullCalls`
+    / `fullCallsB` of Props/C04.lean.  PARSE `<r xmlns:p="urn:a"><p:a>t</p:a></r>`, create a NEW ELEMENT `{urn:a}a`
+    and APPEND it to `r`, SET AN ATTRIBUTE `p:a="v"` on it, `CREATE_MISSING_PREFIXES` on the document, SERIALISE,
+    REPARSE.  In `fullCallsB` the declaration of `p` is removed first (and a rejected text is parsed in
+    between): the repair invents `n0`, the text differs, the round trip holds all the same.  Every hypothesis
+    of `C01_parse_edit_serialise` holds by evaluation. -/
+
+def c01FullText : Str := "<r xmlns:p=\"urn:a\"><p:a>t</p:a><p:a p:a=\"v\"/></r>".toList
+def c01FullTextB : Str := "<r xmlns:n0=\"urn:a\"><n0:a>t</n0:a><n0:a n0:a=\"v\"/></r>".toList
+def c01FullEdits : List Forest.XCall :=
+  [.newNode (.element 3), .call (.append 1 5), .call (.mapInsert .attributes 5 (.attribute 3 ['v'])),
+   .createMissingPrefixes 0]
+
+example : fullCalls = .parse .document fullText :: c01FullEdits.map .api := rfl
+
+example :
+    let S := (PStore.init Env.fresh).run fullCalls
+    (∀ c ∈ c01FullEdits, c.wellKinded) ∧ S.forest.everOff = false ∧ S.forest.roots = [fullRoot] ∧
+    fullRoot.value.isDocument = true ∧ envOK S.env = true ∧
+    fullRoot.erase.allNodes (fun v _ => valueOK S.env v) = true ∧
+    (xmlIdValues S.env fullRoot.erase).Nodup ∧ singleRoot fullRoot.erase = true ∧
+    namesWritable S.env fullRoot.erase [] = some true ∧
+    toXmlString S.env fullRoot.erase [] = .ok c01FullText := by decide +kernel
+
+/-- The edited document parses back to exactly the edited tree: `C01_parse_edit_serialise` instantiated. -/
+example : ∃ p, parseString .document ((PStore.init Env.fresh).run fullCalls).env c01FullText = .ok p ∧
+    p.tree = fullRoot.erase ∧ p.env = ((PStore.init Env.fresh).run fullCalls).env ∧
+    deepEqual p.tree fullRoot.erase = true := by
+  obtain ⟨s, p, h1, h2, h3, h4, h5⟩ := C01_parse_edit_serialise Env.fresh fullText c01FullEdits (by decide)
+    ((PStore.init Env.fresh).run fullCalls) rfl (by decide +kernel) fullRoot fullRoot_mem rfl (by decide +kernel)
+    (by decide +kernel) (by decide +kernel) (by decide +kernel) (by decide +kernel)
+  have hs : s = c01FullText := by
+    have : toXmlString ((PStore.init Env.fresh).run fullCalls).env fullRoot.erase [] = .ok c01FullText := by
+      decide +kernel
+    rw [this] at h1; cases h1; rfl
+  subst hs
+  exact ⟨p, h2, h3, h4, h5⟩
+
+/-- … and by evaluation of the parser on the serialised text. -/
+example : (match parseString .document ((PStore.init Env.fresh).run fullCalls).env c01FullText with
+    | .ok p => p.tree == fullRoot.erase | _ => false) = true := by
+  decide +kernel
+
+/-- `fullCallsB`: declaration removed, a rejected parse in between, the repair invents `n0`. -/
+example :
+    let S := (PStore.init Env.fresh).run fullCallsB
+    (∀ c ∈ fullCallsB, c.wellKinded) ∧ S.forest.everOff = false ∧ S.forest.roots = [fullRootB] ∧
+    envOK S.env = true ∧ fullRootB.erase.allNodes (fun v _ => valueOK S.env v) = true ∧
+    (xmlIdValues S.env fullRootB.erase).Nodup ∧ singleRoot fullRootB.erase = true ∧
+    namesWritable S.env fullRootB.erase [] = some true ∧
+    toXmlString S.env fullRootB.erase [] = .ok c01FullTextB := by decide +kernel
+
+example : ∃ p, parseString .document ((PStore.init Env.fresh).run fullCallsB).env c01FullTextB = .ok p ∧
+    p.tree = fullRootB.erase ∧ deepEqual p.tree fullRootB.erase = true := by
+  obtain ⟨s, p, h1, h2, h3, _, h5⟩ := C01_reachable_roundtrip_full_store Env.fresh fullCallsB fullCallsB_wellKinded
+    ((PStore.init Env.fresh).run fullCallsB) rfl (by decide +kernel) fullRootB fullRootB_mem rfl (by decide +kernel)
+    (by decide +kernel) (by decide +kernel) (by decide +kernel) (by decide +kernel)
+  have hs : s = c01FullTextB := by
+    have : toXmlString ((PStore.init Env.fresh).run fullCallsB).env fullRootB.erase [] = .ok c01FullTextB := by
+      decide +kernel
+    rw [this] at h1; cases h1; rfl
+  subst hs
+  exact ⟨p, h2, h3, h5⟩
+
+/-- The unedited document (`C01_parse_serialise`): `fullText` is accepted from `Xot::new()`'s tables inside both
+    guards; no value-level hypothesis is left. -/
+example : ∃ p, parseString .document Env.fresh fullText = .ok p ∧ NoReservedDecls p.env p.tree = true ∧
+    PlainPiTargets p.env p.tree = true ∧ envOK Env.fresh = true := by
+  have h : (match parseString .document Env.fresh fullText with
+      | .ok p => NoReservedDecls p.env p.tree && PlainPiTargets p.env p.tree | _ => false) = true := by decide +kernel
+  cases hp : parseString .document Env.fresh fullText with
+  | ok p =>
+    rw [hp] at h
+    simp only [Bool.and_eq_true] at h
+    exact ⟨p, rfl, h.1, h.2, by decide +kernel⟩
+  | err e env' => rw [hp] at h; cases h
+  | panic => rw [hp] at h; cases h
+
+/-- `C01_parse_edit_serialise_values` instantiated at `fullCalls` (parse, new element, append, set attribute,
+    `create_missing_prefixes`): the text is accepted inside the guards, the tables after the parse are
+    `nameTableOK`, the values handed to the three editing calls are in the domain of the tables at the time
+    (`Store.argValuesOKAlong`), consolidation was never off, the edited document has one root, no `xml:id`
+    twice, writable names — so it serialises and parses back to itself.  No `valueOK` / `envOK` hypothesis
+    on the edited tree is evaluated. -/
+example : ∃ s p', toXmlString ((PStore.init Env.fresh).run fullCalls).env fullRoot.erase [] = .ok s ∧
+    parseString .document ((PStore.init Env.fresh).run fullCalls).env s = .ok p' ∧ p'.tree = fullRoot.erase := by
+  have hacc : (match parseString .document Env.fresh fullText with
+      | .ok p => NoReservedDecls p.env p.tree && PlainPiTargets p.env p.tree && nameTableOK p.env
+      | _ => false) = true := by decide +kernel
+  cases hp : parseString .document Env.fresh fullText with
+  | err e env' => rw [hp] at hacc; cases hacc
+  | panic => rw [hp] at hacc; cases hacc
+  | ok p =>
+    rw [hp] at hacc
+    simp only [Bool.and_eq_true] at hacc
+    have ha : ((PStore.init Env.fresh).run [.parse .document fullText]).store.argValuesOKAlong c01FullEdits := by
+      refine ⟨?_, trivial, ?_, trivial, trivial⟩
+      · show valueOK _ (.element 3) = true; decide +kernel
+      · show valueOK _ (.attribute 3 ['v']) = true; decide +kernel
+    obtain ⟨s, p', h1, h2, h3, _, _⟩ := C01_parse_edit_serialise_values Env.fresh (by decide +kernel) fullText p hp
+      hacc.1.1 hacc.1.2 hacc.2 c01FullEdits (by decide) ha ((PStore.init Env.fresh).run fullCalls) rfl
+      (by decide +kernel) fullRoot fullRoot_mem rfl (by decide +kernel) (by decide +kernel) (by decide +kernel)
+    exact ⟨s, p', h1, h2, h3⟩
+
+end ParseEditSerialise
 
 end XotModel.Props
